@@ -202,6 +202,10 @@ def make_case(rng, quick, size=None, wide=None, slash_twin=None):
     if size and size != "split": g = nsgen.gen_graph(rng, n_ns=2, n_nodes=size, hostile=False, with_values=False, value_gen=value_gen)
     elif slash_twin: g = nsgen.gen_graph(rng, n_ns=rng.randint(2, 3), n_nodes=rng.randint(5, 8), value_gen=value_gen, slash_twin=True)
     else: g = nsgen.gen_graph(rng, n_ns=rng.randint(10, 13) if wide else rng.randint(1, 3), n_nodes=rng.randint(12, 16) if wide else rng.randint(1, 7 if quick else 10), value_gen=value_gen)
+    if wide and not size and not slash_twin:
+        # browse names qualified with EVERY namespace of the wide table in turn (two-digit browse-name prefixes)
+        own_ = [k for k in g.order if k[0] != nsgen.UA]
+        for i_, k_ in enumerate(own_): g.nodes[k_]["bname"] = (g.uris[i_ % len(g.uris)], g.nodes[k_]["bname"][1])
     if size == "split":
         # one namespace spread over two documents, with a reference between its first and its last node declared in BOTH documents
         g = nsgen.gen_graph(rng, n_ns=1, n_nodes=6, value_gen=value_gen)
